@@ -4,7 +4,9 @@ from .. import gen, core
 from .. import gen_copyright as gc
 from ..core import rec_fields, unhex, hexs
 
-NONUTF8 = "implementation panics on a file path that is not valid UTF-8"
+# oracle messages that name a recorded class start with "[class] "
+NONUTF8 = "[non-utf8-path] implementation panics on a file path that is not valid UTF-8"
+INVALID = "[invalid-glob-escape] implementation panics on a Files pattern with an invalid escape instead of answering from the other patterns"
 KEY_RE = re.compile(r"^[!-9;-~]+$")
 
 def mini_parse(text):
@@ -26,8 +28,6 @@ def mini_parse(text):
             # a comment between fields / paragraphs; not followed by a continuation line
             if i + 1 < len(lines) and lines[i + 1][:1] in (" ", "\t"):
                 return None
-            if cur and i + 1 >= len(lines):
-                pass
             continue
         if line[0] in " \t":
             rest = line.lstrip(" \t")
@@ -47,8 +47,9 @@ def mini_parse(text):
     return [[(k, "\n".join(v)) for k, v in p] for p in paras]
 
 def pget(p, key):
+    """the specification's field lookup: names are not case-sensitive (Policy 5.1)"""
     for k, v in p:
-        if k == key: return v
+        if k.lower() == key.lower(): return v
     return None
 
 def lic_repr(value):
@@ -68,44 +69,78 @@ def lic_has_text(l):
 def opt_hex(v):
     return "-" if v is None else "+" + hexs(v)
 
+def source_variant():
+    """which of the two proposed patches does the repository under test have?  (the first four
+    fixes are commits aa779ad 03f3b49 9fb8927 c9dae02 of /repo)  -> flags for the runner"""
+    def read(rel):
+        try:
+            return open(os.path.join(core.REPO, "debian-copyright", "src", rel), encoding="utf-8").read()
+        except Exception:
+            return ""
+    g = read("glob.rs")
+    def b(x): return "1" if x else "0"
+    dotall = '"(?s)^"' in g
+    lossy_ws = "text.split_whitespace()" in read("lossy.rs")
+    ll = read("lossless.rs")
+    lp_name = "None => Some(x.to_string())" in ll
+    skip = ll.count(".skip(1)") >= 2
+    lenient = "fn try_glob_to_regex" in g and "fn glob_matches" in g
+    lossy_path = "to_string_lossy()" in g
+    return b(dotall) + b(lossy_ws) + b(lp_name) + b(skip) + b(lenient) + b(lossy_path)
+
 class C17(Prop):
     id = "C17"
     coq_targets = ["props/C17.vo"]
     props_file = "props/C17.v"
     design_ref = "DESIGN.md §4 C17"
     level_text = ('Coq theorems, no bound on documents, patterns or paths: (1) for every glob with valid escapes, glob_to_regex returns a regex whose '
-                  'backtracking match equals the declarative DEP-5 relation (\'*\' any run incl. \'/\' and LF, \'?\' one character, backslash-escapes, literals), and it panics '
-                  'exactly on an invalid escape; (2) over every document (list of paragraphs of (field, value) pairs, as the deb822 reader returns them) and every path, '
-                  'find_files of both readers returns the last non-header paragraph with a Files field one of whose whitespace-separated patterns matches; '
+                  'backtracking match equals the declarative DEP-5 relation (\'*\' any run incl. \'/\' and LF, \'?\' one character, backslash-escapes, literals), it panics '
+                  'exactly on an invalid escape, and glob_matches() of the patched code is true exactly when the relation holds, for EVERY pattern (an invalid one matches nothing); '
+                  '(2) over every document (list of paragraphs of (field, value) pairs, as the deb822 reader returns them; patterns with invalid escapes included) that spells the field names '
+                  'Files/License/Copyright/Format in exactly this case (hypothesis exact_case: the specification looks names up modulo case, Policy 5.1, the code exactly — finding field-name-case, '
+                  'witness theorem) and every path, find_files of both readers returns the last non-header paragraph with a Files field one of whose whitespace-separated patterns matches, and never panics; '
+                  'for the code WITHOUT the proposed patch C17-invalid-glob-escape the same holds only under the additional hypothesis doc_valid (every pattern of every Files paragraph has valid escapes; '
+                  'C17_lookup_committed), and C17_invalid_escape_witness shows it fails without it (both readers panic for every path the bad paragraph is asked about); '
                   '(3) find_license_for_file returns that paragraph\'s own licence when it has text, otherwise the first stand-alone paragraph of that name, otherwise nothing; '
-                  '(4) whenever the lossy reader accepts a document its find_files index, matches, find_license_by_name and find_license_for_file equal the lossless reader\'s, and it accepts every well-formed document; '
-                  '(5) all three text entry points answer NotMachineReadable exactly when the text does not start with "Format:", and otherwise look up in Deb822Parse.doc_items of the parsed text. '
-                  'The theorems are about the code with the four proposed one-line fixes (proposed_fixes/C17-*.patch); each defect of the shipped code has a _refuted lemma on the shipped variant of the model. '
-                  'Tied to the code by the glob and copyright correspondence streams on every run.')
+                  '(4) whenever the lossy reader accepts a document its find_files index, matches, find_license_by_name and find_license_for_file equal the lossless reader\'s (no hypothesis), and it accepts every well-formed exact_case document; '
+                  '(5) all three text entry points answer NotMachineReadable exactly when the text does not start with the seven characters "Format:", and otherwise look up in Deb822Parse.doc_items of the parsed text. '
+                  'The theorems are about the code with the four committed fixes and the two proposed patches (C17-invalid-glob-escape, C17-non-utf8-path); each defect has a _refuted lemma on the variant of the model lacking that fix. '
+                  'Tied to the code by the glob and copyright correspondence streams on every run; the model variant compared is chosen from the sources of the repository under test.')
     level_note = ('Model: debian-copyright/src/glob.rs, lossless.rs (lookup functions), lossy.rs (from_str conversion, lookup functions), lib.rs (License). '
-                  'regex crate: modelled external (anchored list of literal / "." / ".*" atoms, backtracking semantics; Regex::new assumed to succeed, which the crate refuses beyond ~10^4 wildcards: finding glob-regex-size-limit).')
+                  'regex crate: modelled external (anchored list of literal / "." / ".*" atoms, backtracking semantics; Regex::new assumed to succeed, which the crate refuses when the compiled pattern exceeds 10 MiB — '
+                  '32 bytes per UTF-8 byte of literal, about 1 KiB per wildcard: finding glob-regex-size-limit). A path that is not valid UTF-8 is seen through to_string_lossy() (patch C17-non-utf8-path).')
     rule = ("glob stream: the repo's glob unit tests + every Files value of length <= 3 (thorough 4) over {a . + ( [ * ? \\ / SP LF} x every path of length <= 3 "
             "(thorough: also length 4) over {a . + ( [ * ? \\ / LF} + random patterns (regex metacharacters, Unicode, invalid escapes, several per field, Unicode separators) "
-            "with paths instantiated from them; copyright stream: the repo's copyright test literals + hand-written edge cases + every arrangement of <= 2 (thorough 3) "
+            "with paths instantiated from them + patterns with invalid escapes next to valid ones + paths that are not valid UTF-8 + the regex-size class (wildcards, 4-byte literals, a mixture) and controls; "
+            "copyright stream: the repo's copyright test literals + hand-written edge cases + every arrangement of <= 2 (thorough 3) "
             "Files paragraphs over 5 patterns x 3 licence forms x 4 stand-alone licence configurations + generated documents (1-5 paragraphs, 1-3 patterns on one or several "
-            "lines, inline/stand-alone/header licences, duplicate fields, comments) + a malformed stream (mutations, texts not starting with Format:); "
-            "non-trivial = some pattern matched some path")
+            "lines, inline/stand-alone/header licences, duplicate fields, comments) + documents with an invalid pattern in a later/earlier paragraph + field names in another case + "
+            "a malformed stream (mutations, texts not starting with Format:); non-trivial = some pattern matched some path")
     trusted = ["Coq 8.16.1 kernel (vm_compute used for finite witnesses only)",
                "hand-written Coq transcription of debian-copyright/src/{glob,lossless,lossy,lib}.rs lookup code and of the derived from_paragraph (deb822-derive) for the three lossy structs, tied to the code by the glob and copyright correspondence streams on every run",
                "regex crate (Regex::new, is_match, regex::escape) modelled as an anchored atom list with backtracking semantics; validated exhaustively on short patterns x paths by the glob stream",
-               "Rust std: split_whitespace (Unicode White_Space written out), split('\\n'), split_once, starts_with — executable definitions validated by correspondence",
+               "Rust std: split_whitespace (Unicode White_Space written out), split('\\n'), split_once, starts_with, Path::to_string_lossy (the case file carries Python's errors='replace' conversion; the correspondence run checks it is Rust's) — executable definitions validated by correspondence",
                "coq/model/Deb822Parse.v (from_str, doc_items) for the text entry points: proved total in C01's cone",
                "extraction (ExtrOcamlBasic only), OCaml runner, Rust harness, Python driver and the oracle's reference matcher"]
-    assumptions = ["paths are valid UTF-8 (Path::to_str().unwrap() panics otherwise — outside the model, see docs/cones/C17.md)",
-                   "Regex::new succeeds: the pattern is within the regex crate's default 10 MiB compiled-size limit (measured first failures: 9855 wildcards, 327675 literal characters)",
-                   "the theorems are about the code with proposed_fixes/C17-*.patch applied; on the code without them the check reports the violations"]
+    assumptions = ["exact_case d: the document spells the field names Files, License, Copyright, Format in exactly this case (the code compares field names exactly; other spellings are the recorded finding field-name-case)",
+                   "doc_valid d (every pattern of every Files paragraph has valid escapes) — ONLY for the code without proposed_fixes/C17-invalid-glob-escape.patch; with it the lookup theorems have no such hypothesis",
+                   "a path that is not valid UTF-8 is looked up as its lossy conversion (with proposed_fixes/C17-non-utf8-path.patch; without it the lookup panics)",
+                   "Regex::new succeeds: the compiled pattern is within the regex crate's default 10 MiB limit (class glob-regex-size-limit: 1100 x wildcards + 32 x UTF-8 bytes >= 10^7)",
+                   "the positive theorems are about the code with the two proposed patches applied; on the code without them the check reports the violations"]
     case_ms = 20000
 
     def streams(self, tier, rng):
+        if "VERIF_C17_MODEL" not in os.environ or os.environ.get("VERIF_C17_MODEL_AUTO") == "1":
+            os.environ["VERIF_C17_MODEL"] = source_variant()
+            os.environ["VERIF_C17_MODEL_AUTO"] = "1"
+            core.log(f"[C17] model variant from the sources of {core.REPO}: {os.environ['VERIF_C17_MODEL']} (dotall lossy_ws lp_name skip_header lenient lossy_path)")
         yield "glob", gc.glob_cases(tier, rng)
         yield "glob", gc.glob_size_limit_cases()
         yield "glob", gc.glob_nonutf8_cases()
+        yield "glob", gc.glob_invalid_escape_cases()
         yield "copyright", gc.copyright_nonutf8_cases()
+        yield "copyright", gc.copyright_invalid_escape_cases()
+        yield "copyright", gc.copyright_field_case_cases()
         yield "copyright", gc.copyright_cases(tier, rng)
         yield "copyright", gc.copyright_malformed_cases(tier, rng)
 
@@ -120,19 +155,18 @@ class C17(Prop):
     def oracle_glob(self, fields, impl):
         pats = gc.split_ws(unhex(fields[0]))
         bits = rec_fields(impl).get("m", "")
-        paths = [None if p.startswith("!") else unhex(p) for p in fields[1:]]
-        if len(bits) != len(paths):
+        if len(bits) != len(fields) - 1:
             return "record length"
-        for p, b in zip(paths, bits):
-            if p is None:
-                if b == "P" and gc.field_matches(pats, "") is not None:
-                    return NONUTF8
-                continue                 # not a string: the reference matcher has no opinion
+        for f, b in zip(fields[1:], bits):
+            p = gc.path_of_field(f)
             exp = gc.field_matches(pats, p)
-            if exp is None:
-                continue                 # an invalid escape is reached: DEP-5 error, no claim
-            if b != exp:
-                return f"patterns {pats!r} vs path {p!r}: implementation says {b}, DEP-5 says {exp}"
+            if b == exp:
+                continue
+            if b == "P" and f.startswith("!") and not gc.reaches_invalid(pats, p):
+                return NONUTF8
+            if b == "P" and gc.reaches_invalid(pats, p):
+                return INVALID
+            return f"patterns {pats!r} vs path {p!r}: implementation says {b}, DEP-5 says {exp}"
         return None
 
     def parse_copyright_record(self, impl):
@@ -152,19 +186,20 @@ class C17(Prop):
     def oracle_copyright(self, fields, impl):
         text = unhex(fields[0])
         k = int(fields[1])
-        paths = [None if p.startswith("!") else unhex(p) for p in fields[2:2 + k]]
+        pfields = fields[2:2 + k]
+        paths = [gc.path_of_field(p) for p in pfields]
         names = [unhex(p) for p in fields[2 + k:]]
         try:
             r, lf, ls = self.parse_copyright_record(impl)
         except Exception as e:
             return "implementation " + ("PANIC" if "PANIC" in impl else "record unreadable")
-        # (5) the Format gate
-        starts = text.startswith("Format:")
+        # (5) the Format gate; a Format field is a Format field in any case (Policy 5.1)
+        starts = text[:7].lower() == "format:"
         for key in ("ll", "rx", "ly"):
             if r.get(key) in ("PANIC", "HANG", None):
                 return f"implementation {r.get(key)} in {key}"
             if (r[key] == "ERR:nmr") != (not starts):
-                return f"Format gate: text {'starts' if starts else 'does not start'} with 'Format:' but {key}={r[key]}"
+                return f"Format gate: text {'starts' if starts else 'does not start'} with a Format field but {key}={r[key]}"
         if r["ll"] != "OK":
             mp = mini_parse(text) if starts else None
             if mp and all(re.match(r"^[A-Za-z][A-Za-z0-9-]*$", kk) for p in mp for kk, _ in p):
@@ -202,19 +237,18 @@ class C17(Prop):
         if len(lq) != len(paths):
             return "record length (lq)"
         ll_answers = []
-        for path, q in zip(paths, lq):
+        for pf, path, q in zip(pfields, paths, lq):
             bits, ff, fl = q.split("/")
-            if path is None:
-                if "P" in q and None not in [gc.field_matches(pats, "") for pats, _, _, _ in lf]:
+            exp_bits = "".join(gc.field_matches(pats, path) for pats, _, _, _ in lf)
+            if "P" in q:
+                # a panic: which recorded defect is it?
+                if any(gc.reaches_invalid(pats, path) for pats, _, _, _ in lf):
+                    return INVALID
+                if pf.startswith("!"):
                     return NONUTF8
-                ll_answers.append(None)
-                continue
-            exp_bits = [gc.field_matches(pats, path) for pats, _, _, _ in lf]
-            if None in exp_bits:
-                ll_answers.append(None)      # invalid escape reached: no claim about this path
-                continue
-            if "".join(exp_bits) != bits:
-                return f"FilesParagraph::matches({path!r}) = {bits}, DEP-5 says {''.join(exp_bits)} for {[p for p, _, _, _ in lf]!r}"
+                return f"implementation panics looking up {path!r}"
+            if exp_bits != bits:
+                return f"FilesParagraph::matches({path!r}) = {bits}, DEP-5 says {exp_bits} for {[p for p, _, _, _ in lf]!r}"
             last = bits.rfind("1")
             # (2) last matching paragraph wins
             if ff != ("-" if last < 0 else lf[last][3]):
@@ -244,8 +278,6 @@ class C17(Prop):
             return f"lossy reader has {r['yc']} files.licenses paragraphs, lossless {len(lf)}.{len(ls)}"
         yq = r["yq"].split(";") if r.get("yq") else []
         for path, q, a in zip(paths, yq, ll_answers):
-            if a is None:
-                continue
             bits, idx, fl = q.split("/")
             if bits != a[0]:
                 return f"lossy and lossless FilesParagraph::matches({path!r}) differ: {bits} vs {a[0]}"
@@ -265,25 +297,34 @@ class C17(Prop):
         return impl.startswith("ll=OK") and re.search(r"[;=][01P]*1[01P]*/", impl) is not None
 
     def known_class(self, stream, fields, impl, model, why):
-        if why == NONUTF8:
-            return "non-utf8-path"
+        """each class is a narrow decidable predicate over the case, checked here — the message
+        alone does not put a failure into a class"""
+        why = why or ""
         if stream == "glob":
-            if "P" in impl and gc.in_regex_size_class(gc.split_ws(unhex(fields[0]))):
-                return "glob-regex-size-limit"
-            return None
-        try:
-            _, lf, _ = self.parse_copyright_record(impl)
-        except Exception:
-            return None
-        if "P" in impl and any(gc.in_regex_size_class(p) for p, _, _, _ in lf):
+            pats = gc.split_ws(unhex(fields[0]))
+            all_pats = [pats]
+            text = ""
+        else:
+            text = unhex(fields[0])
+            try:
+                _, lf, _ = self.parse_copyright_record(impl)
+                all_pats = [p for p, _, _, _ in lf]
+            except Exception:
+                all_pats = []
+        npaths = fields[1:] if stream == "glob" else fields[2:2 + int(fields[1])]
+        if why.startswith("[non-utf8-path]") and any(p.startswith("!") for p in npaths):
+            return "non-utf8-path"
+        if why.startswith("[invalid-glob-escape]") and any(gc.has_invalid(p) for p in all_pats):
+            return "invalid-glob-escape"
+        if any(gc.in_regex_size_class(p) for p in all_pats):
+            # refused by the regex crate: a panic, or (with C17-invalid-glob-escape) "no match"
             return "glob-regex-size-limit"
+        if stream == "copyright" and gc.field_name_case_class(text):
+            return "field-name-case"
         return None
 
     def shrink_field(self, stream):
         return 0
-
-    def readable_path(self, p):
-        return p if p.startswith("!") else unhex(p)
 
     def neighbours(self, stream, fields):
         s = unhex(fields[0])
